@@ -1,7 +1,7 @@
 (* C06 — ITS ABI encoder is byte-exact Solidity abi.encode for every message type.
    Property theorems only; proofs are in Proofs/SolAbiEnc.v. *)
 From Coq Require Import String List NArith Lia.
-From Ax Require Import Lib.Bytes Lib.SolAbi Model.ItsPayloads Proofs.SolAbiEnc Proofs.SolAbiDec Gen.Generated.
+From Ax Require Import Lib.Bytes Lib.SolAbi Model.ItsPayloads Proofs.SolAbiEnc Proofs.SolAbiDec Proofs.SolAbiSize Gen.Generated.
 Import ListNotations.
 Open Scope N_scope.
 
@@ -24,6 +24,14 @@ Theorem c06_length_mult32 : forall toks out,
   Forall wf_token toks -> enc_spec toks = Some out -> exists q, Nlen out = 32 * q.
 Proof. exact enc_spec_length_mult32. Qed.
 Print Assumptions c06_length_mult32.
+
+(* the size bound in the hypotheses above is nothing but the length of the
+   output: [spec_size] is exactly the number of bytes produced, so the
+   theorems cover every payload below 4 GiB and restrict nothing else *)
+Theorem c06_size_is_output_length : forall toks out,
+  Forall wf_token toks -> enc_spec toks = Some out -> Nlen out = spec_size toks.
+Proof. exact enc_spec_length_eq_size. Qed.
+Print Assumptions c06_size_is_output_length.
 
 Theorem c06_heads_size : forall k toks earlier,
   Forall wf_token toks -> Nlen (spec_heads k earlier toks) = 32 * Nlen toks.
@@ -82,3 +90,4 @@ Qed.
 Check c06_encode_exact : forall toks, Forall wf_token toks -> spec_size toks < 2 ^ 32 -> enc_impl toks = enc_spec toks.
 Check c06_reject_iff : forall toks, enc_spec toks = None <-> exists v, In (TUint v) toks /\ 2 ^ 256 <= v.
 Check c06_struct_exact : forall k toks, Forall wf_token toks -> spec_size toks < 2 ^ 32 -> enc_struct k toks = enc_struct_spec k toks.
+Check c06_size_is_output_length : forall toks out, Forall wf_token toks -> enc_spec toks = Some out -> Nlen out = spec_size toks.
